@@ -224,6 +224,11 @@ MonViol(mm, m2, e) ==
   \* equals the address the handshake came from (a record without address fields is not admissible downstream anyway)
   \cup (IF \E j \in Evs(e, "Established") : e.out[j].dir = "In" /\ e.out[j].rec # "L:1" /\ RecOf(e.out[j].rec).sock \notin {"none", e.out[j].addr}
         THEN {"C12.SingleStack"} ELSE {})
+  \* ... and a session is reported established for the node the exchange is with, not for the owner of a record that merely appeared
+  \* in one of its answers (the record request of a contact without record)
+  \cup (IF Kind(e) \in {"PeerMessage", "PeerHandshake"} /\ ~Unres(e) /\ "claim" \in DOMAIN In(e)
+           /\ \E j \in Evs(e, "Established") : e.out[j].id # In(e).claim
+        THEN {"C12.EstablishedForeign"} ELSE {})
   \* ---------------- C15 (handler part)
   \cup (IF Len(Get(e.snap, "sessions", <<>>)) > mm.cfg.cap THEN {"C15.Capacity"} ELSE {})
   \cup (IF \E i \in 1..Len(mm.idle) : mm.idle[i].u > mm.cfg.ttl /\
